@@ -3,7 +3,7 @@
 #   patch applies; the full pinned test suite passes with it; demo.py fails with it and passes without it.
 # On success the seed is stored as /verif/seeded/<PROP>-<name>/ {patch.diff, demo.py, meta.json(+confirmation)}.
 set -u
-PROP=$1; SRC=$(readlink -f "$2"); NAME=$(basename "$SRC")
+PROP=$1; SRC=$(readlink -f "$2"); NAME=${3:-}$(basename "$SRC")
 ROOT=$(cd "$(dirname "$0")/.." && pwd)
 WT=/tmp/confirm/$PROP-$NAME
 rm -rf "$WT"; git -C /repo worktree prune; mkdir -p /tmp/confirm
